@@ -462,14 +462,18 @@ class Translator:
         fid = self.next_id
         self.next_id += 1
         self.names[fid] = name
+        dup_key = None
         if name in scope.bound and scope.bound[name].get('path') == path:
+            dup_key = f'{self.tre}:{scope.cname}.{name}-added-more-than-once'
             self.defects.append({'kind': 'duplicate-attribute', 'tre': self.tre, 'class': scope.cname, 'attr': name, 'line': line, 'path': path,
-                                 'key': f'{self.tre}:{scope.cname}.{name}-added-more-than-once',
+                                 'key': dup_key,
                                  'what': f'{scope.cname} adds the attribute {name} twice on the same path: the second value replaces the first, '
                                          f'to_bytes() writes the second value in both places'})
         scope.bound[name] = {'id': fid, 'typ': typ, 'width': width, 'path': path}
         tree = node_tree if path is None else ['cond', path, node_tree]
         f = {'name': name, 'id': fid, 'typ': typ, 'node': tree, 'via': via, 'line': line}
+        if dup_key:
+            f['dup_key'] = dup_key
         if extra:
             f.update(extra)
         return f
